@@ -13,6 +13,7 @@ type CallSite struct {
 	Task string   `json:"t"`
 	V    string   `json:"v"`             // "" = V not passed, "$" = pass the caller's V through, else literal
 	For  []string `json:"for,omitempty"` // for: [..] list; the item is passed as V
+	Mat  [][]string `json:"mat,omitempty"` // for: {matrix: {A: [..], B: [..]}}; the item is the concatenation of the row values
 }
 
 // Cmd kinds: sh, call, dsh (defer shell), dcall (defer task call)
@@ -22,6 +23,7 @@ type Cmd struct {
 	Ign bool      `json:"ign,omitempty"` // ignore_error on the command
 	CS  *CallSite `json:"cs,omitempty"`
 	For []string  `json:"for,omitempty"` // for list on a shell command (item printed)
+	Mat [][]string `json:"mat,omitempty"` // matrix on a shell command
 }
 
 type Task struct {
@@ -79,6 +81,35 @@ func pexpr(name string, t *Task) string {
 
 func yq(s string) string { return "'" + strings.ReplaceAll(s, "'", "''") + "'" }
 
+var matKeys = []string{"A", "B", "C"}
+
+// matYAML renders for: {matrix: ...}; itemExpr is the template giving the concatenated item.
+func matYAML(rows [][]string) string {
+	var parts []string
+	for i, r := range rows {
+		parts = append(parts, matKeys[i]+": "+forYAML(r))
+	}
+	return "{matrix: {" + strings.Join(parts, ", ") + "}}"
+}
+
+func itemExpr(mat [][]string) string {
+	if len(mat) == 0 {
+		return "{{.ITEM}}"
+	}
+	e := ""
+	for i := range mat {
+		e += "{{.ITEM." + matKeys[i] + "}}"
+	}
+	return e
+}
+
+func forOf(list []string, mat [][]string) string {
+	if len(mat) > 0 {
+		return matYAML(mat)
+	}
+	return forYAML(list)
+}
+
 func forYAML(items []string) string {
 	q := make([]string, len(items))
 	for i, it := range items {
@@ -92,8 +123,8 @@ func callVars(p *Program, self string, st *Task, cs *CallSite, kind string, idx 
 	var parts []string
 	callee := p.Tasks[cs.Task]
 	suffix := fmt.Sprintf(".%s%d", kind, idx)
-	if len(cs.For) > 0 {
-		suffix += "_{{.ITEM}}"
+	if len(cs.For) > 0 || len(cs.Mat) > 0 {
+		suffix += "_" + itemExpr(cs.Mat)
 	}
 	if callee != nil && callee.run() != "when_changed" {
 		parts = append(parts, "P: "+yq(pexpr(self, st)+suffix))
@@ -101,8 +132,8 @@ func callVars(p *Program, self string, st *Task, cs *CallSite, kind string, idx 
 	// every call passes V and W explicitly ("" = nothing): an unset variable and an empty one
 	// would otherwise be different "sets of variable values" for run: when_changed
 	switch {
-	case len(cs.For) > 0:
-		parts = append(parts, "V: '{{.ITEM}}'", "W: ''")
+	case len(cs.For) > 0 || len(cs.Mat) > 0:
+		parts = append(parts, "V: '"+itemExpr(cs.Mat)+"'", "W: ''")
 	case cs.V == "$":
 		parts = append(parts, "V: '{{.V}}'", "W: '{{.W}}'")
 	case strings.Contains(cs.V, "+"):
@@ -156,8 +187,8 @@ func (p *Program) Taskfile() string {
 			b.WriteString("    deps:\n")
 			for j, d := range t.Deps {
 				d := d
-				if len(d.For) > 0 {
-					fmt.Fprintf(&b, "      - for: %s\n        task: %s\n", forYAML(d.For), d.Task)
+				if len(d.For) > 0 || len(d.Mat) > 0 {
+					fmt.Fprintf(&b, "      - for: %s\n        task: %s\n", forOf(d.For, d.Mat), d.Task)
 					if v := callVars(p, name, t, &d, "d", j+1); v != "" {
 						fmt.Fprintf(&b, "        %s\n", v)
 					}
@@ -180,8 +211,8 @@ func (p *Program) Taskfile() string {
 				switch c.K {
 				case "sh", "dsh":
 					item := ""
-					if len(c.For) > 0 {
-						item = "{{.ITEM}}"
+					if len(c.For) > 0 || len(c.Mat) > 0 {
+						item = itemExpr(c.Mat)
 					}
 					xc := ""
 					if c.K == "dsh" {
@@ -198,8 +229,8 @@ func (p *Program) Taskfile() string {
 					if c.K == "dsh" {
 						key = "defer"
 					}
-					if len(c.For) > 0 {
-						fmt.Fprintf(&b, "      - for: %s\n        cmd: %s\n", forYAML(c.For), yq(line))
+					if len(c.For) > 0 || len(c.Mat) > 0 {
+						fmt.Fprintf(&b, "      - for: %s\n        cmd: %s\n", forOf(c.For, c.Mat), yq(line))
 						if c.Ign {
 							b.WriteString("        ignore_error: true\n")
 						}
@@ -210,8 +241,8 @@ func (p *Program) Taskfile() string {
 						}
 					}
 				case "call":
-					if len(c.CS.For) > 0 {
-						fmt.Fprintf(&b, "      - for: %s\n        task: %s\n", forYAML(c.CS.For), c.CS.Task)
+					if len(c.CS.For) > 0 || len(c.CS.Mat) > 0 {
+						fmt.Fprintf(&b, "      - for: %s\n        task: %s\n", forOf(c.CS.For, c.CS.Mat), c.CS.Task)
 					} else {
 						fmt.Fprintf(&b, "      - task: %s\n", c.CS.Task)
 					}
@@ -250,16 +281,24 @@ func tlaBool(b bool) string {
 	return "FALSE"
 }
 
+func tlaMat(m [][]string) string {
+	rows := make([]string, len(m))
+	for i, r := range m {
+		rows[i] = tlaSeqStr(r)
+	}
+	return "<<" + strings.Join(rows, ", ") + ">>"
+}
+
 func (cs *CallSite) tla() string {
 	if cs == nil {
-		return `[t |-> "", v |-> "", for |-> <<>>]`
+		return `[t |-> "", v |-> "", for |-> <<>>, mat |-> <<>>]`
 	}
-	return fmt.Sprintf(`[t |-> %s, v |-> %s, for |-> %s]`, tlaStr(cs.Task), tlaStr(cs.V), tlaSeqStr(cs.For))
+	return fmt.Sprintf(`[t |-> %s, v |-> %s, for |-> %s, mat |-> %s]`, tlaStr(cs.Task), tlaStr(cs.V), tlaSeqStr(cs.For), tlaMat(cs.Mat))
 }
 
 func (c *Cmd) tla() string {
-	return fmt.Sprintf(`[k |-> %s, x |-> %d, ign |-> %s, cs |-> %s, for |-> %s]`,
-		tlaStr(c.K), c.X, tlaBool(c.Ign), c.CS.tla(), tlaSeqStr(c.For))
+	return fmt.Sprintf(`[k |-> %s, x |-> %d, ign |-> %s, cs |-> %s, for |-> %s, mat |-> %s]`,
+		tlaStr(c.K), c.X, tlaBool(c.Ign), c.CS.tla(), tlaSeqStr(c.For), tlaMat(c.Mat))
 }
 
 func (t *Task) tla() string {
